@@ -344,8 +344,13 @@ def run_check(module, tier: str, seed: int, replay: str | None = None) -> int:
         scale = 1.0
         if audit["broken"]:
             scale = 3.0  # a broken proof widens the failing-input search
+        from harness import fingerprints
+        fps = fingerprints.compare(REPO, prop_id)
+        if fps["changed"] and not audit["broken"]:
+            scale = 2.0  # the modelled source was edited since the model was reconciled with it: look harder
         ctx = Ctx(prop_id, tier, seed, scale)
         ctx.audit = audit
+        ctx.extra["source_fingerprints"] = fps
         if replay:
             payload = json.loads(Path(replay).read_text())
             module.replay(ctx, payload)
